@@ -16,12 +16,23 @@ theorem good_cases {f : Fault} (h : f.good = true) : f = .none ∨ ∃ l, f = .a
 /-- what the files must hold for the tcp service -/
 def TcpGood (t : Tcp) : Prop := (t.want ≠ 0 → t.map = t.want ∧ t.crt = t.want) ∧ t.main = t.want
 
-/-- invariant between events (good faults only) -/
+/-- what holds whatever failed: the in-memory stores are consistent in themselves, a file never
+holds a backend of another shard -/
+structure SInv (sh : Sh p) (s : Store p) : Prop where
+  a : ∀ x c, s.add x = some c → s.items x = some c
+  s1 : sh.n ≠ 0 → ∀ k x, s.shards k x = if sh.shardOf x = k then s.items x else none
+
+structure WInv (sh : Sh p) (w : FW p) : Prop where
+  s : SInv sh w.g.w.store
+  g : ∀ k x, sh.shardOf x ≠ k → w.g.w.disk k x = none
+  hbc : ∀ x, w.h.bc x = w.h.bcC x
+
+/-- what holds between events while no rewrite is owed: the files follow the stores (C05), and HAProxy
+follows the files unless a reload is owed or queued -/
 structure FInv (o : Opt) (sh : Sh p) (w : FW p) : Prop where
   b : Inv sh w.g.w
   h : HInv w.h
   hm : w.g.committed = true → w.h.mapsNil = false
-  hbc : ∀ x, w.h.bc x = w.h.bcC x
   mh : w.g.committed = true → w.mainHosts = anyFin fun x => (w.h.maps x).isSome
   t1 : w.tcp.changed = false → w.g.committed = true → TcpGood w.tcp
   t2 : w.g.committed = false → w.tcp.changed = false → w.tcp.want = 0
@@ -30,15 +41,26 @@ structure FInv (o : Opt) (sh : Sh p) (w : FW p) : Prop where
   bm2 : ∀ x d, w.g.w.store.del x = some d → o.needACL (conf d) = true → w.bm x = some (conf d)
   pc1 : ∀ x, w.g.w.store.add x = none → (w.g.w.store.items x).isSome = true → w.pcI x = true ∧ w.pmI x = true
   pc2 : ∀ x, (w.g.w.store.del x).isSome = true → w.pcD x = true ∧ w.pmD x = true
+  r : w.reloadOwed = true ∨ w.pending = true ∨ RunGood sh w
+
+/-- the invariant of every history, whatever the faults -/
+structure JInv (o : Opt) (sh : Sh p) (w : FW p) : Prop where
+  wi : WInv sh w
   q : o.queue = false → w.pending = false
-  r : w.pending = true ∨ RunGood sh w
+  d : w.rewriteOwed = false → FInv o sh w
+
+theorem winv_init (sh : Sh p) : WInv sh ({} : FW p) := by
+  refine ⟨⟨?_, ?_⟩, ?_, ?_⟩
+  · intro x c h; simp [emp] at h
+  · intro _ k x; simp [emp]
+  · intro k x _; rfl
+  · intro x; rfl
 
 theorem finv_init (o : Opt) (sh : Sh p) : FInv o sh ({} : FW p) := by
-  refine ⟨?_, ?_, ?_, ?_, ?_, ?_, ?_, ?_, ?_, ?_, ?_, ?_, ?_⟩
+  refine ⟨?_, ?_, ?_, ?_, ?_, ?_, ?_, ?_, ?_, ?_, ?_⟩
   · refine ⟨?_, ?_, ?_, ?_, ?_, ?_, ?_⟩ <;> intros <;> simp_all [emp]
   · refine ⟨?_, ?_, ?_, ?_⟩ <;> intro h <;> simp at h
   · intro h; cases h
-  · intro x; rfl
   · intro h; cases h
   · intro _ h; cases h
   · intro _ _; rfl
@@ -46,12 +68,14 @@ theorem finv_init (o : Opt) (sh : Sh p) : FInv o sh ({} : FW p) := by
   · intro x d h; simp [emp] at h
   · intro x _ h; simp [emp] at h
   · intro x h; simp [emp] at h
-  · intro _; rfl
-  · right
+  · right; right
     refine ⟨?_, ?_, ?_, rfl, rfl, rfl⟩
     · intro x c h; simp [load, emp] at h
     · intro x; simp [load]
     · intro x; rfl
+
+theorem jinv_init (o : Opt) (sh : Sh p) : JInv o sh ({} : FW p) :=
+  ⟨winv_init sh, fun _ => rfl, fun _ => finv_init o sh⟩
 
 /-! ### events of a batch -/
 
@@ -151,13 +175,13 @@ theorem removeAll_mem (sh : Sh p) (xs : List (Fin p)) : ∀ (s : Store p) (y : F
 
 theorem step_inv_batch {o : Opt} {sh : Sh p} (wf : sh.WF) {w : FW p} (hi : FInv o sh w) (e : Ev p)
     (hok : okEv w e = true) (hne : ∀ f, e ≠ .upd f) (hnq : ∀ f, e ≠ .qrun f) : FInv o sh (step o sh w e) := by
-  obtain ⟨hb, hh, hhm, hbc, hmh, ht1, ht2, hbm1, hbm2, hpc1, hpc2, hq, hr⟩ := hi
+  obtain ⟨hb, hh, hhm, hmh, ht1, ht2, hbm1, hbm2, hpc1, hpc2, hr⟩ := hi
   cases e with
   | upd f => exact absurd rfl (hne f)
   | qrun f => exact absurd rfl (hnq f)
   | acq x c =>
     have hb' := acquire_inv hb x c
-    refine ⟨hb', hh, hhm, hbc, hmh, ht1, ht2, ?_, ?_, ?_, ?_, hq, ?_⟩
+    refine ⟨hb', hh, hhm, hmh, ht1, ht2, ?_, ?_, ?_, ?_, ?_⟩
     · intro y d hy1 hy2 hy3
       simp only [step, setStore] at hy1 hy2 ⊢
       unfold acquire at hy1 hy2
@@ -194,16 +218,17 @@ theorem step_inv_batch {o : Opt} {sh : Sh p} (wf : sh.WF) {w : FW p} (hi : FInv 
       cases hix : w.g.w.store.items x with
       | some v => simp only [hix] at hy; exact hpc2 y hy
       | none => simp only [hix, flag] at hy; exact hpc2 y hy
-    · rcases hr with hr | hr
+    · rcases hr with hr | hr | hr
       · exact Or.inl hr
-      · exact Or.inr (runGood_congr (w := w) rfl rfl rfl rfl rfl rfl rfl rfl hr)
+      · exact Or.inr (Or.inl hr)
+      · exact Or.inr (Or.inr (runGood_congr (w := w) rfl rfl rfl rfl rfl rfl rfl rfl hr))
   | rem xs =>
     have hadd : ∀ x ∈ xs, w.g.w.store.add x = none := by
       intro x hx
       simp only [okEv, List.all_eq_true] at hok
       simpa using hok x hx
     have hb' := removeAll_inv xs hb hadd
-    refine ⟨hb', hh, hhm, hbc, hmh, ht1, ht2, ?_, ?_, ?_, ?_, hq, ?_⟩
+    refine ⟨hb', hh, hhm, hmh, ht1, ht2, ?_, ?_, ?_, ?_, ?_⟩
     · intro y d hy1 hy2 hy3
       simp only [step, setStore] at hy1 hy2 ⊢
       rw [removeAll_add] at hy1
@@ -244,38 +269,40 @@ theorem step_inv_batch {o : Opt} {sh : Sh p} (wf : sh.WF) {w : FW p} (hi : FInv 
         have hc : ¬ (xs.contains y = true) := by simpa using hmem
         simp only [hc, false_and, if_false]
         exact hpc2 y hy
-    · rcases hr with hr | hr
+    · rcases hr with hr | hr | hr
       · exact Or.inl hr
-      · exact Or.inr (runGood_congr (w := w) rfl rfl rfl rfl rfl rfl rfl rfl hr)
+      · exact Or.inr (Or.inl hr)
+      · exact Or.inr (Or.inr (runGood_congr (w := w) rfl rfl rfl rfl rfl rfl rfl rfl hr))
   | hacq x c =>
     have hm := hacquire_maps w.h x c
-    refine ⟨hb, hacquire_inv hh x c, ?_, ?_, ?_, ht1, ht2, hbm1, hbm2, hpc1, hpc2, hq, ?_⟩
+    refine ⟨hb, hacquire_inv hh x c, ?_, ?_, ht1, ht2, hbm1, hbm2, hpc1, hpc2, ?_⟩
     · intro hc; simp only [step]; rw [hm.2.1]; exact hhm hc
-    · intro y; simp only [step]; rw [hm.2.2.1, hm.2.2.2]; exact hbc y
     · intro hc; simp only [step]; rw [hm.1]; exact hmh hc
-    · rcases hr with hr | hr
+    · rcases hr with hr | hr | hr
       · exact Or.inl hr
-      · exact Or.inr (runGood_congr (w := w) rfl rfl hm.1 rfl rfl rfl rfl rfl hr)
+      · exact Or.inr (Or.inl hr)
+      · exact Or.inr (Or.inr (runGood_congr (w := w) rfl rfl hm.1 rfl rfl rfl rfl rfl hr))
   | hrem xs =>
     have hm := hremoveAll_maps xs w.h
     have hadd : ∀ x ∈ xs, w.h.add x = none := by
       intro x hx
       simp only [okEv, List.all_eq_true] at hok
       simpa using hok x hx
-    refine ⟨hb, hremoveAll_inv xs hh hadd, ?_, ?_, ?_, ht1, ht2, hbm1, hbm2, hpc1, hpc2, hq, ?_⟩
+    refine ⟨hb, hremoveAll_inv xs hh hadd, ?_, ?_, ht1, ht2, hbm1, hbm2, hpc1, hpc2, ?_⟩
     · intro hc; simp only [step]; rw [hm.2.1]; exact hhm hc
-    · intro y; simp only [step]; rw [hm.2.2.1, hm.2.2.2]; exact hbc y
     · intro hc; simp only [step]; rw [hm.1]; exact hmh hc
-    · rcases hr with hr | hr
+    · rcases hr with hr | hr | hr
       · exact Or.inl hr
-      · exact Or.inr (runGood_congr (w := w) rfl rfl hm.1 rfl rfl rfl rfl rfl hr)
+      · exact Or.inr (Or.inl hr)
+      · exact Or.inr (Or.inr (runGood_congr (w := w) rfl rfl hm.1 rfl rfl rfl rfl rfl hr))
   | tcp v =>
-    refine ⟨hb, hh, hhm, hbc, hmh, ?_, ?_, hbm1, hbm2, hpc1, hpc2, hq, ?_⟩
+    refine ⟨hb, hh, hhm, hmh, ?_, ?_, hbm1, hbm2, hpc1, hpc2, ?_⟩
     · intro hc; simp [step] at hc
     · intro _ hc; simp [step] at hc
-    · rcases hr with hr | hr
+    · rcases hr with hr | hr | hr
       · exact Or.inl hr
-      · exact Or.inr (runGood_congr (w := w) rfl rfl rfl rfl rfl rfl rfl rfl hr)
+      · exact Or.inr (Or.inl hr)
+      · exact Or.inr (Or.inr (runGood_congr (w := w) rfl rfl rfl rfl rfl rfl rfl rfl hr))
   | full =>
     have hclean : ∀ x, w.g.w.store.add x = none ∧ w.g.w.store.del x = none := by
       intro x
@@ -283,9 +310,8 @@ theorem step_inv_batch {o : Opt} {sh : Sh p} (wf : sh.WF) {w : FW p} (hi : FInv 
       have := (anyFin_false_iff _).1 hok x
       cases ha : w.g.w.store.add x <;> cases hd : w.g.w.store.del x <;> simp_all
     have hb' := clear_inv wf hb hclean
-    refine ⟨hb', hclear_inv w.h, ?_, ?_, ?_, ?_, ?_, ?_, ?_, ?_, ?_, hq, ?_⟩
+    refine ⟨hb', hclear_inv w.h, ?_, ?_, ?_, ?_, ?_, ?_, ?_, ?_, ?_⟩
     · intro hc; simp [step] at hc
-    · intro y; exact hbc y
     · intro hc; simp [step] at hc
     · intro _ hc; simp [step] at hc
     · intro _ _; rfl
@@ -297,724 +323,172 @@ theorem step_inv_batch {o : Opt} {sh : Sh p} (wf : sh.WF) {w : FW p} (hi : FInv 
     · intro y hy
       simp only [step, clear] at hy ⊢
       exact hpc1 y (hclean y).1 hy
-    · rcases hr with hr | hr
+    · rcases hr with hr | hr | hr
       · exact Or.inl hr
-      · exact Or.inr (runGood_congr (w := w) rfl rfl rfl rfl rfl rfl rfl rfl hr)
+      · exact Or.inr (Or.inl hr)
+      · exact Or.inr (Or.inr (runGood_congr (w := w) rfl rfl rfl rfl rfl rfl rfl rfl hr))
 
-/-! ### one `HAProxyUpdate` without a write fault -/
+
+/-! ### the store invariant that survives everything -/
+
+theorem sinv_of_inv {sh : Sh p} {w : World p} (h : Inv sh w) : SInv sh w.store := ⟨h.a, h.s1⟩
+
+theorem sinv_acquire {sh : Sh p} {s : Store p} (h : SInv sh s) (x : Fin p) (c : Content) : SInv sh (acquire sh s x c) := by
+  unfold acquire
+  cases hi : s.items x with
+  | some v => exact h
+  | none =>
+    obtain ⟨ha, hs1⟩ := h
+    refine ⟨?_, ?_⟩
+    · intro y d hy
+      simp only [flag, setM] at hy ⊢
+      by_cases hyx : y = x
+      · simp only [hyx, if_true] at hy ⊢; exact hy
+      · simp only [hyx, if_false] at hy ⊢; exact ha y d hy
+    · intro hn k y
+      have := hs1 hn k y
+      simp only [flag, setShard, setM]
+      by_cases hyx : y = x
+      · subst hyx
+        by_cases hk : k = sh.shardOf y
+        · simp [hn, hk]
+        · have hk' : ¬ sh.shardOf y = k := fun h => hk h.symm
+          simp only [hk, false_and, and_false, if_false, hk', if_true]
+          rw [this]; simp [hk']
+      · simp only [hyx, and_false, if_false]; exact this
+
+theorem sinv_removeOne {sh : Sh p} {s : Store p} (h : SInv sh s) (x : Fin p) (hx : s.add x = none) :
+    SInv sh (removeOne sh s x) := by
+  unfold removeOne
+  cases hi : s.items x with
+  | none => exact h
+  | some v =>
+    obtain ⟨ha, hs1⟩ := h
+    refine ⟨?_, ?_⟩
+    · intro y d hy
+      simp only [flag, setM] at hy ⊢
+      by_cases hyx : y = x
+      · subst hyx; rw [hx] at hy; cases hy
+      · simp only [hyx, if_false]; exact ha y d hy
+    · intro hn k y
+      have := hs1 hn k y
+      simp only [flag, setShard, setM]
+      by_cases hyx : y = x
+      · subst hyx
+        by_cases hk : k = sh.shardOf y
+        · simp [hn, hk]
+        · have hk' : ¬ sh.shardOf y = k := fun h => hk h.symm
+          simp only [hk, false_and, and_false, if_false, hk', if_true]
+          rw [this]; simp [hk']
+      · simp only [hyx, and_false, if_false]; exact this
+
+theorem sinv_removeAll {sh : Sh p} (xs : List (Fin p)) : ∀ {s : Store p}, SInv sh s →
+    (∀ x ∈ xs, s.add x = none) → SInv sh (removeAll sh s xs) := by
+  induction xs with
+  | nil => intro s h _; exact h
+  | cons x xs ih =>
+    intro s h hx
+    have h1 := sinv_removeOne h x (hx x List.mem_cons_self)
+    have := ih h1 (by
+      intro y hy
+      rw [removeOne_add]; exact hx y (List.mem_cons_of_mem _ hy))
+    simpa [removeAll] using this
+
+theorem sinv_clear (sh : Sh p) (s : Store p) : SInv sh (clear sh s) :=
+  ⟨fun x c h => by simp [clear, emp] at h, fun _ k x => by simp [clear, emp]⟩
+
+theorem sinv_shrink {sh : Sh p} {s : Store p} (h : SInv sh s) : SInv sh (shrink sh s) := by
+  obtain ⟨ha, hs1⟩ := h
+  refine ⟨?_, ?_⟩
+  · intro x c hx
+    simp only [shrink] at hx ⊢
+    by_cases hm : matched s x = true
+    · simp [hm] at hx
+    · simp only [hm, Bool.false_eq_true, if_false] at hx ⊢; exact ha x c hx
+  · intro hn k x
+    have := hs1 hn k x
+    simp only [shrink]
+    by_cases hm : matched s x = true
+    · by_cases hk : k = sh.shardOf x
+      · simp [hn, hm, hk]
+      · have hk' : ¬ sh.shardOf x = k := fun h => hk h.symm
+        simp only [hm, hk, and_false, if_false, hk']
+        rw [this]; simp [hk']
+    · simp only [hm, Bool.false_eq_true, false_and, and_false, if_false]; exact this
+
+theorem sinv_allShards {sh : Sh p} {s : Store p} (h : SInv sh s) : SInv sh (allShards sh s) := ⟨h.a, h.s1⟩
+
+theorem sinv_commit {sh : Sh p} {s : Store p} (h : SInv sh s) : SInv sh (commit s) :=
+  ⟨fun x c hx => by simp [commit, emp] at hx, h.s1⟩
+
+/-- batch events keep the weak invariant -/
+theorem winv_step_batch {o : Opt} {sh : Sh p} {w : FW p} (hi : WInv sh w) (e : Ev p)
+    (hok : okEv w e = true) (hne : ∀ f, e ≠ .upd f) (hnq : ∀ f, e ≠ .qrun f) : WInv sh (step o sh w e) := by
+  obtain ⟨hs, hg, hbc⟩ := hi
+  cases e with
+  | upd f => exact absurd rfl (hne f)
+  | qrun f => exact absurd rfl (hnq f)
+  | acq x c => exact ⟨sinv_acquire hs x c, hg, hbc⟩
+  | rem xs =>
+    refine ⟨sinv_removeAll xs hs ?_, hg, hbc⟩
+    intro x hx
+    simp only [okEv, List.all_eq_true] at hok
+    simpa using hok x hx
+  | hacq x c =>
+    have hm := hacquire_maps w.h x c
+    refine ⟨hs, hg, ?_⟩
+    intro y; simp only [step]; rw [hm.2.2.1, hm.2.2.2]; exact hbc y
+  | hrem xs =>
+    have hm := hremoveAll_maps xs w.h
+    refine ⟨hs, hg, ?_⟩
+    intro y; simp only [step]; rw [hm.2.2.1, hm.2.2.2]; exact hbc y
+  | tcp v => exact ⟨hs, hg, hbc⟩
+  | full => exact ⟨sinv_clear sh _, hg, hbc⟩
+
+theorem jinv_step_batch {o : Opt} {sh : Sh p} (wf : sh.WF) {w : FW p} (hi : JInv o sh w) (e : Ev p)
+    (hok : okEv w e = true) (hne : ∀ f, e ≠ .upd f) (hnq : ∀ f, e ≠ .qrun f) : JInv o sh (step o sh w e) := by
+  have hro : (step o sh w e).rewriteOwed = w.rewriteOwed ∧ (step o sh w e).pending = w.pending := by
+    cases e with
+    | upd f => exact absurd rfl (hne f)
+    | qrun f => exact absurd rfl (hnq f)
+    | _ => exact ⟨rfl, rfl⟩
+  refine ⟨winv_step_batch hi.wi e hok hne hnq, ?_, ?_⟩
+  · intro hq; rw [hro.2]; exact hi.q hq
+  · intro hr; rw [hro.1] at hr; exact step_inv_batch wf (hi.d hr) e hok hne hnq
+
+/-! ### stages 1 to 5 of `HAProxyUpdate` -/
 
 /-- files and flags after stage 4 when no write fails -/
-def w4Of (o : Opt) (sh : Sh p) (w : FW p) : FW p :=
-  let s0 := shrink sh w.g.w.store
-  let w := shrinkFlags w
-  let w1 : FW p := if w.tcp.changed then { w with tcp := { w.tcp with map := w.tcp.want } } else w
-  let w1 : FW p := { w1 with h := hWrite w.h.shrink }
-  let w2 : FW p := if backChanged s0 then mapFlags s0 w1 else w1
-  let w3 : FW p := if backChanged s0 then bmWrite o s0 w2 else w2
-  if w.tcp.want != 0 then { w3 with tcp := { w3.tcp with crt := w.tcp.want } } else w3
+def w4Of (o : Opt) (sh : Sh p) (rw : Bool) (w : FW p) : FW p :=
+  crtStage (bmStage o rw (s0Of sh rw w) (flagStage rw (s0Of sh rw w)
+    { tcpStage rw (w0Of w) with h := hWrite (hs0Of rw w) }))
 
-theorem pre_good (o : Opt) (sh : Sh p) (w : FW p) {f : Fault} (hf : f.good = true) :
-    pre o sh f w = .ok (dynStage sh f.bad (shrinkFlags w) (shrink sh w.g.w.store) w.h.shrink
-      (hWrite w.h.shrink) (w4Of o sh w)) := by
-  rcases good_cases hf with rfl | ⟨l, rfl⟩ <;> simp [pre, w4Of, shrinkFlags]
+/-- when no write of stages 1 to 4 fails, whatever the fault -/
+theorem pre_ok {o : Opt} {sh : Sh p} {w : FW p} {f : Fault} {m : Mid p} (h : pre o sh f w = .ok m) :
+    m = dynStage sh f.bad (o.repaired && w.rewriteOwed) (w0Of w) (s0Of sh (o.repaired && w.rewriteOwed) w)
+      (hs0Of (o.repaired && w.rewriteOwed) w) (hWrite (hs0Of (o.repaired && w.rewriteOwed) w))
+      (w4Of o sh (o.repaired && w.rewriteOwed) w) := by
+  unfold pre at h
+  split at h
+  · cases h
+  unfold pre2 at h
+  split at h
+  · cases h
+  unfold pre3 at h
+  split at h
+  · cases h
+  unfold pre4 at h
+  split at h
+  · cases h
+  cases h
+  rfl
 
-section w4
-variable (o : Opt) (sh : Sh p) (w : FW p)
-
-local macro "w4_cases" : tactic => `(tactic|
-  (by_cases h1 : w.tcp.changed = true <;> by_cases h2 : backChanged (shrink sh w.g.w.store) = true <;>
-    by_cases h3 : (w.tcp.want != 0) = true <;>
-    simp [w4Of, shrinkFlags, mapFlags, bmWrite, h1, h2, h3]))
-
-theorem w4Of_g : (w4Of o sh w).g = w.g := by w4_cases
-theorem w4Of_h : (w4Of o sh w).h = hWrite w.h.shrink := by w4_cases
-theorem w4Of_run : (w4Of o sh w).run = w.run := by w4_cases
-theorem w4Of_pending : (w4Of o sh w).pending = w.pending := by w4_cases
-theorem w4Of_mainHosts : (w4Of o sh w).mainHosts = w.mainHosts := by w4_cases
-theorem w4Of_pcD : (w4Of o sh w).pcD = w.pcD := by w4_cases
-theorem w4Of_pmD : (w4Of o sh w).pmD = w.pmD := by w4_cases
-theorem w4Of_tcp_want : (w4Of o sh w).tcp.want = w.tcp.want := by w4_cases
-theorem w4Of_tcp_changed : (w4Of o sh w).tcp.changed = w.tcp.changed := by w4_cases
-theorem w4Of_tcp_main : (w4Of o sh w).tcp.main = w.tcp.main := by w4_cases
-theorem w4Of_tcp_map : (w4Of o sh w).tcp.map = if w.tcp.changed then w.tcp.want else w.tcp.map := by w4_cases
-theorem w4Of_tcp_crt : (w4Of o sh w).tcp.crt = if w.tcp.want != 0 then w.tcp.want else w.tcp.crt := by w4_cases
-theorem w4Of_bm (x : Fin p) : (w4Of o sh w).bm x =
-    if backChanged (shrink sh w.g.w.store) then
-      (match (shrink sh w.g.w.store).add x with
-        | some c => if o.needACL (conf c) then some (conf c) else w.bm x
-        | none => w.bm x)
-    else w.bm x := by
-  w4_cases <;> (cases (shrink sh w.g.w.store).add x <;> rfl)
-theorem w4Of_pmI (x : Fin p) : (w4Of o sh w).pmI x =
-    ((backChanged (shrink sh w.g.w.store) && ((shrink sh w.g.w.store).add x).isSome) ||
-      (if matched w.g.w.store x then w.pmD x else w.pmI x)) := by w4_cases
-theorem w4Of_pcI (x : Fin p) : (w4Of o sh w).pcI x =
-    ((backChanged (shrink sh w.g.w.store) && ((shrink sh w.g.w.store).add x).isSome) ||
-      (if matched w.g.w.store x then w.pcD x else w.pcI x)) := by w4_cases
-
-end w4
-
-/-! ### the dynamic update -/
-
-theorem pair?_eq_some {s : Store p} {x : Fin p} {d a : Content} :
-    pair? s x = some (d, a) ↔ s.del x = some d ∧ s.add x = some a ∧ a.slots ≤ d.slots := by
-  unfold pair?
-  cases hd : s.del x with
-  | none => simp
-  | some d' =>
-    cases ha : s.add x with
-    | none => simp
-    | some a' =>
-      by_cases hle : a'.slots ≤ d'.slots
-      · simp only [hle, if_true, Option.some.injEq, Prod.mk.injEq]
-        constructor
-        · rintro ⟨rfl, rfl⟩; exact ⟨rfl, rfl, hle⟩
-        · rintro ⟨rfl, rfl, _⟩; exact ⟨rfl, rfl⟩
-      · simp only [hle, if_false, Option.some.injEq]
-        constructor
-        · intro h; cases h
-        · rintro ⟨rfl, rfl, h⟩; exact absurd h hle
-
-theorem pair?_none_of_add_none {s : Store p} {x : Fin p} (h : s.add x = none) : pair? s x = none := by
-  unfold pair?; cases s.del x <;> simp [h]
-
-theorem dynStore_items (sh : Sh p) (s : Store p) (x : Fin p) :
-    (dynStore sh s).items x = match pair? s x with
-      | some da => some { cfg := da.2.cfg, slots := da.1.slots }
-      | none => s.items x := by
-  unfold dynStore; simp only []; cases hp : pair? s x <;> simp
-
-theorem dynStore_add (sh : Sh p) (s : Store p) (x : Fin p) :
-    (dynStore sh s).add x = match pair? s x with
-      | some da => some { cfg := da.2.cfg, slots := da.1.slots }
-      | none => s.add x := by
-  unfold dynStore; simp only []; cases hp : pair? s x <;> simp
-
-theorem dynStore_del (sh : Sh p) (s : Store p) : (dynStore sh s).del = s.del := rfl
-theorem dynStore_changed (sh : Sh p) (s : Store p) : (dynStore sh s).changed = s.changed := rfl
-
-theorem dynStore_add_isSome (sh : Sh p) (s : Store p) (x : Fin p) :
-    ((dynStore sh s).add x).isSome = (s.add x).isSome := by
-  rw [dynStore_add]
-  cases hp : pair? s x with
-  | none => rfl
-  | some da =>
-    obtain ⟨d, a⟩ := da
-    have := (pair?_eq_some.1 hp).2.1
-    simp [this]
-
-/-- the dynamic update keeps the C05 invariant: the added object of a pair is replaced, in `items`,
-`itemsAdd` and its shard, by one that differs in the number of empty slots only -/
-theorem dynStore_inv {sh : Sh p} {s : Store p} {d : Disk p} (h : Inv sh { store := s, disk := d }) :
-    Inv sh { store := dynStore sh s, disk := d } := by
-  obtain ⟨ha, hb, hb2, hc, he, hs1, hg⟩ := h
-  refine ⟨?_, ?_, ?_, ?_, ?_, ?_, ?_⟩
-  · intro x c hx
-    simp only [dynStore_add, dynStore_items] at hx ⊢
-    cases hp : pair? s x with
-    | none => simp only [hp] at hx ⊢; exact ha x c hx
-    | some da => simp only [hp] at hx ⊢; exact hx
-  · intro x hx hd
-    simp only [dynStore_add, dynStore_items] at hx ⊢
-    cases hp : pair? s x with
-    | none => simp only [hp] at hx ⊢; exact hb x hx hd
-    | some da => simp [hp] at hx
-  · intro x hx hd
-    simp only [dynStore_add, dynStore_items] at hx ⊢
-    cases hp : pair? s x with
-    | none => simp only [hp] at hx ⊢; exact hb2 x hx hd
-    | some da => simp [hp] at hx
-  · exact hc
-  · intro hn x hx
-    have : ((dynStore sh s).add x).isSome = (s.add x).isSome := dynStore_add_isSome sh s x
-    simp only [] at hx
-    rw [this] at hx
-    exact he hn x hx
-  · intro hn k x
-    simp only [dynStore_items]
-    show (dynStore sh s).shards k x = _
-    unfold dynStore
-    simp only []
-    cases hp : pair? s x with
-    | none => simp only [Option.map_none]; exact hs1 hn k x
-    | some da =>
-      simp only [Option.map_some]
-      by_cases hk : sh.shardOf x = k
-      · simp [hk, hn]
-      · have hk' : ¬ (k = sh.shardOf x) := fun h => hk h.symm
-        simp only [hn, ne_eq, not_false_eq_true, hk', and_false, if_false, hk]
-        have := hs1 hn k x
-        simp only [hk, if_false] at this
-        exact this
-  · exact hg
-
-/-- a name has an item after the dynamic update iff it had one before -/
-theorem dynStore_items_isSome {sh : Sh p} {s : Store p} {d : Disk p} (h : Inv sh { store := s, disk := d })
-    (x : Fin p) : ((dynStore sh s).items x).isSome = (s.items x).isSome := by
-  rw [dynStore_items]
-  cases hp : pair? s x with
-  | none => rfl
-  | some da =>
-    obtain ⟨d', a⟩ := da
-    have : s.items x = some a := h.a x a (pair?_eq_some.1 hp).2.1
-    simp [this]
-
-/-- and its `conf` is the same -/
-theorem dynStore_items_conf {sh : Sh p} {s : Store p} {d : Disk p} (h : Inv sh { store := s, disk := d })
-    {x : Fin p} {c : Content} (hx : (dynStore sh s).items x = some c) :
-    ∃ c0, s.items x = some c0 ∧ conf c0 = conf c := by
-  rw [dynStore_items] at hx
-  cases hp : pair? s x with
-  | none => rw [hp] at hx; exact ⟨c, hx, rfl⟩
-  | some da =>
-    obtain ⟨d', a⟩ := da
-    rw [hp] at hx
-    simp only [Option.some.injEq] at hx
-    subst hx
-    exact ⟨a, h.a x a (pair?_eq_some.1 hp).2.1, rfl⟩
-
-theorem anyRange_false {f : Nat → Bool} {lo : Nat} : ∀ {n : Nat}, anyRange f lo n = false →
-    ∀ i, i < n → f (lo + i) = false := by
-  intro n
-  induction n with
-  | zero => intro _ i hi; omega
-  | succ n ih =>
-    intro h i hi
-    simp only [anyRange, Bool.or_eq_false_iff] at h
-    by_cases hin : i = n
-    · subst hin; exact h.1
-    · exact ih h.2 i (by omega)
-
-/-! ### the state after the deferred `Commit()` -/
-
-theorem updateWith_eq (s : HStore p) : s.updateWith true = hCommit (hWrite s.shrink) := by
-  unfold HStore.updateWith hCommit hWrite hSkip
-  simp only [Bool.true_and]
-
-theorem want_isSome (s : HStore p) (x : Fin p) : (s.want x).isSome = (s.items x).isSome := by
-  unfold HStore.want; cases s.items x <;> rfl
-
-theorem commitAll_spec {o : Opt} {sh : Sh p} {X : FW p} {s : Store p} {hs : HStore p}
-    (hs1 : sh.n ≠ 0 → ∀ k x, s.shards k x = if sh.shardOf x = k then s.items x else none)
-    (hgood : ∀ k x, X.g.w.disk k x = itemsIn sh s k x)
-    (hXh : X.h.maps = hs.maps)
-    (hH : HInv (hCommit hs)) (hmaps : ∀ x, hs.maps x = (hCommit hs).want x) (hnil : hs.mapsNil = false)
-    (hmh : X.mainHosts = anyFin fun x => (hs.maps x).isSome)
-    (htcp : TcpGood X.tcp)
-    (hbm : ∀ x c, s.items x = some c → o.needACL (conf c) = true → X.bm x = some (conf c))
-    (hpc : ∀ x, (s.items x).isSome = true → X.pcI x = true ∧ X.pmI x = true)
-    (hq : o.queue = false → X.pending = false)
-    (hr : X.pending = true ∨ RunGood sh X) :
-    FInv o sh (commitAll X s hs) ∧ DiskGood o sh (commitAll X s hs) := by
-  have hrun : (commitAll X s hs).pending = true ∨ RunGood sh (commitAll X s hs) := by
-    rcases hr with hr | hr
-    · exact Or.inl hr
-    · exact Or.inr (runGood_congr (w := X) rfl rfl hXh.symm rfl rfl rfl rfl rfl hr)
-  have hmh' : (commitAll X s hs).mainHosts = hasHosts (commitAll X s hs).h := by
-    show X.mainHosts = hasHosts (hCommit hs)
-    rw [hmh]
-    unfold hasHosts
-    congr 1
-    funext x
-    rw [hmaps x, want_isSome]
-  refine ⟨⟨?_, hH, fun _ => hnil, fun _ => rfl, fun _ => hmh, fun _ _ => htcp, ?_, ?_, ?_, ?_, ?_, hq, hrun⟩,
-    ⟨hgood, hmaps, hmh', htcp.1, htcp.2, hbm⟩⟩
-  · refine ⟨?_, ?_, ?_, ?_, ?_, ?_, ?_⟩
-    · intro x c hx; simp [commitAll, commit, emp] at hx
-    · intro x _ _
-      have := hgood (sh.shardOf x) x
-      simp only [itemsIn, if_true] at this
-      exact this.symm
-    · intro x _ hx; simp [commitAll, commit, emp] at hx
-    · intro x d hx; simp [commitAll, commit, emp] at hx
-    · intro _ x hx; simp [commitAll, commit, emp] at hx
-    · intro hn k x; exact hs1 hn k x
-    · intro k x hk
-      have := hgood k x
-      simp only [itemsIn, hk, if_false] at this
-      exact this
-  · intro h; cases h
-  · intro x c _ hx hn; exact hbm x c hx hn
-  · intro x d hx; simp [commitAll, commit, emp] at hx
-  · intro x _ hx; exact hpc x hx
-  · intro x hx; simp [commitAll, commit, emp] at hx
-
-/-! ### stages 6 to 8 without a fault in them -/
-
-theorem good_not {f : Fault} (hf : f.good = true) :
-    (f == .mainCfg) = false ∧ f.isReload = false ∧ (∀ k, f.isShard k = false) := by
-  rcases good_cases hf with rfl | ⟨l, rfl⟩ <;> exact ⟨by simp, rfl, fun _ => rfl⟩
-
-theorem writeCfg_none (sh : Sh p) (s : Store p) (d : Disk p) : writeCfg sh s d none = write sh s d := by
-  unfold writeCfg write
-  split
-  · rfl
-  · funext k; simp
-
-theorem shardLim_none {o : Opt} {sh : Sh p} {f : Fault} (hf : f.good = true) {s : Store p} {pm : Fin p → Bool}
-    (hbad : ∀ x, badX o s pm x = false) : shardLim o sh f s pm = none := by
-  unfold shardLim
-  split
-  · rfl
-  · rw [List.find?_eq_none]
-    intro k _
-    have h1 := (good_not hf).2.2 k
-    have h2 : (anyFin fun x => decide (sh.shardOf x = k) && badX o s pm x) = false := by
-      rw [anyFin_false_iff]; intro x; simp [hbad x]
-    simp [h1, h2]
-
-/-- what is known about the running HAProxy in terms of the in-memory model (used when no reload follows) -/
-def RunMatches (s : Store p) (X : FW p) : Prop :=
-  (∀ x c, s.items x = some c → X.run.back x = some c) ∧
-  (∀ x, X.run.maps x = if X.mainHosts then X.h.maps x else none) ∧
-  (∀ x, X.run.bm x = X.bm x) ∧
-  X.run.tcpMap = X.tcp.map ∧ X.run.tcpCrt = X.tcp.crt ∧ X.run.tcpMain = X.tcp.main
-
-theorem runGood_load {sh : Sh p} {X : FW p} (h : X.run = load sh X) : RunGood sh X := by
-  refine ⟨?_, ?_, ?_, ?_, ?_, ?_⟩
-  · intro x c hx; rw [h]; exact hx
-  · intro x; rw [h]
-  · intro x; rw [h]
-  · rw [h]; rfl
-  · rw [h]; rfl
-  · rw [h]; rfl
-
-theorem runGood_of_matches {sh : Sh p} {X : FW p} {s : Store p}
-    (hgood : ∀ k x, X.g.w.disk k x = itemsIn sh s k x) (h : RunMatches s X) : RunGood sh X := by
-  obtain ⟨h1, h2, h3, h4, h5, h6⟩ := h
-  refine ⟨?_, h2, h3, h4, h5, h6⟩
-  intro x c hx
-  simp only [load] at hx
-  rw [hgood] at hx
-  simp only [itemsIn, if_true] at hx
-  exact h1 x c hx
-
-theorem post_good {o : Opt} {sh : Sh p} (wf : sh.WF) {f : Fault} (hf : f.good = true) {m : Mid p}
-    (hinv : Inv sh { store := m.s, disk := m.w.g.w.disk })
-    (hbad : ∀ x, badX o m.s m.w.pmI x = false)
-    (hXh : m.w.h.maps = m.hs.maps)
-    (hH : HInv (hCommit m.hs)) (hmaps : ∀ x, m.hs.maps x = (hCommit m.hs).want x) (hnil : m.hs.mapsNil = false)
-    (htcp : m.w.tcp.want ≠ 0 → m.w.tcp.map = m.w.tcp.want ∧ m.w.tcp.crt = m.w.tcp.want)
-    (hbm : ∀ x c, m.s.items x = some c → o.needACL (conf c) = true → m.w.bm x = some (conf c))
-    (hpc : ∀ x, (m.s.items x).isSome = true → m.w.pcI x = true ∧ m.w.pmI x = true)
-    (hq : o.queue = false → m.w.pending = false)
-    (hskip : m.updated = true → m.sends = 0 → m.bchg = false → ∀ k x, m.w.g.w.disk k x = itemsIn sh m.s k x)
-    (hupd : m.updated = true → m.w.tcp.main = m.w.tcp.want ∧
-        m.w.mainHosts = (anyFin fun x => (m.hs.maps x).isSome) ∧ (m.w.pending = true ∨ RunMatches m.s m.w)) :
-    (post o sh f m).err = false ∧ FInv o sh (post o sh f m).w ∧ DiskGood o sh (post o sh f m).w := by
-  obtain ⟨hmc, hrl, _⟩ := good_not hf
-  have hmb : (decide (sh.n = 0) && anyFin (badX o m.s m.w.pmI)) = false := by
-    have : anyFin (badX o m.s m.w.pmI) = false := by rw [anyFin_false_iff]; exact hbad
-    simp [this]
-  have hlim := shardLim_none (sh := sh) hf hbad
-  unfold post
-  simp only [hmc, hmb, Bool.or_false, Bool.and_false, Bool.false_eq_true, if_false, hlim, Option.isSome_none,
-    writeCfg_none]
-  -- the files after stage 6
-  by_cases hdw : (!m.updated || decide (0 < m.sends) || m.bchg) = true
-  · simp only [hdw, if_true]
-    have hgood : ∀ k x, write sh m.s m.w.g.w.disk k x = itemsIn sh m.s k x := write_good wf hinv
-    have hpcI : ∀ x, (m.s.items x).isSome = true → (rendered sh m.s none x || m.w.pcI x) = true ∧ m.w.pmI x = true := by
-      intro x hx; have := hpc x hx; simp [this.1, this.2]
-    by_cases hu : m.updated = true
-    · simp only [hu, if_true]
-      refine ⟨by first | rfl | trivial, ?_⟩
-      obtain ⟨hmain, hmhs, hrun⟩ := hupd hu
-      refine commitAll_spec hinv.s1 hgood hXh hH hmaps hnil rfl ⟨htcp, rfl⟩ hbm hpcI hq ?_
-      rcases hrun with hp | hrm
-      · exact Or.inl hp
-      · refine Or.inr (runGood_of_matches (s := m.s) hgood ?_)
-        obtain ⟨h1, h2, h3, h4, h5, h6⟩ := hrm
-        refine ⟨h1, ?_, h3, h4, h5, ?_⟩
-        · intro x
-          show m.w.run.maps x = if (anyFin fun x => (m.hs.maps x).isSome) = true then m.w.h.maps x else none
-          rw [h2 x, hmhs]
-        · show m.w.run.tcpMain = m.w.tcp.want
-          rw [h6, hmain]
-    · simp only [hu, Bool.false_eq_true, if_false]
-      by_cases hqq : o.queue = true
-      · simp only [hqq, if_true]
-        refine ⟨by first | rfl | trivial, ?_⟩
-        refine commitAll_spec hinv.s1 hgood hXh hH hmaps hnil rfl ⟨htcp, rfl⟩ hbm hpcI ?_ (Or.inl rfl)
-        intro hq0; rw [hq0] at hqq; cases hqq
-      · simp only [hqq, Bool.false_eq_true, if_false]
-        have hqf : o.queue = false := by cases h : o.queue <;> simp_all
-        simp only [reload, hrl, Bool.false_eq_true, if_false]
-        refine ⟨by first | rfl | trivial, ?_⟩
-        exact commitAll_spec hinv.s1 hgood hXh hH hmaps hnil rfl ⟨htcp, rfl⟩ hbm hpcI (fun _ => hq hqf)
-          (Or.inr (runGood_load rfl))
-  · have hu : m.updated = true := by
-      cases h : m.updated <;> simp_all
-    have hs0 : m.sends = 0 := by
-      cases h : m.updated <;> simp_all
-    have hb0 : m.bchg = false := by
-      cases h : m.bchg <;> simp_all
-    simp only [hdw, if_false]
-    simp only [hu, if_true]
-    refine ⟨by first | rfl | trivial, ?_⟩
-    obtain ⟨hmain, hmhs, hrun⟩ := hupd hu
-    have hgood := hskip hu hs0 hb0
-    refine commitAll_spec hinv.s1 hgood hXh hH hmaps hnil hmhs ⟨htcp, hmain⟩ hbm hpc hq ?_
-    rcases hrun with hp | hrm
-    · exact Or.inl hp
-    · exact Or.inr (runGood_of_matches hgood hrm)
-
-/-! ### `HAProxyUpdate` from the invariant -/
-
-theorem shrink_items (sh : Sh p) (s : Store p) (x : Fin p) :
-    (shrink sh s).items x = if matched s x then s.del x else s.items x := rfl
-theorem shrink_add (sh : Sh p) (s : Store p) (x : Fin p) :
-    (shrink sh s).add x = if matched s x then none else s.add x := rfl
-theorem shrink_del (sh : Sh p) (s : Store p) (x : Fin p) :
-    (shrink sh s).del x = if matched s x then none else s.del x := rfl
-
-theorem backChanged_of_add {s : Store p} {x : Fin p} (h : (s.add x).isSome = true) : backChanged s = true := by
-  unfold backChanged; rw [anyFin_iff]; exact ⟨x, by simp [h]⟩
-
-theorem backChanged_false {s : Store p} (h : backChanged s = false) (x : Fin p) : s.add x = none ∧ s.del x = none := by
-  unfold backChanged at h
-  have := (anyFin_false_iff _).1 h x
-  cases ha : s.add x <;> cases hd : s.del x <;> simp_all
-
-/-- every backend that has an item after `Shrink` has its `pathConfig` and its `PathsMap` once
-WriteBackendMaps has run -/
-theorem flags_after_maps {o : Opt} {sh : Sh p} {w : FW p} (hi : FInv o sh w) (x : Fin p)
-    (hx : ((shrink sh w.g.w.store).items x).isSome = true) :
-    (w4Of o sh w).pcI x = true ∧ (w4Of o sh w).pmI x = true := by
-  rw [w4Of_pcI, w4Of_pmI]
-  cases ha : (shrink sh w.g.w.store).add x with
-  | some a =>
-    have := backChanged_of_add (s := shrink sh w.g.w.store) (x := x) (by simp [ha])
-    simp [this]
-  | none =>
-    rw [shrink_items] at hx
-    rw [shrink_add] at ha
-    by_cases hm : matched w.g.w.store x = true
-    · obtain ⟨d, a, hd, _, _⟩ := (matched_iff _ _).1 hm
-      have := hi.pc2 x (by simp [hd])
-      simp [hm, this.1, this.2]
-    · simp only [hm, Bool.false_eq_true, if_false] at hx ha
-      have := hi.pc1 x ha hx
-      simp [hm, this.1, this.2]
-
-theorem bm_after_maps {o : Opt} {sh : Sh p} {w : FW p} (hi : FInv o sh w) (x : Fin p) (c : Content)
-    (hx : (shrink sh w.g.w.store).items x = some c) (hn : o.needACL (conf c) = true) :
-    (w4Of o sh w).bm x = some (conf c) := by
-  have hI0 : Inv sh { store := shrink sh w.g.w.store, disk := w.g.w.disk } := shrink_inv hi.b
-  rw [w4Of_bm]
-  cases ha : (shrink sh w.g.w.store).add x with
-  | some a =>
-    have hb := backChanged_of_add (s := shrink sh w.g.w.store) (x := x) (by simp [ha])
-    have hca : (shrink sh w.g.w.store).items x = some a := hI0.a x a ha
-    rw [hx] at hca
-    cases hca
-    simp [hb, hn]
-  | none =>
-    have hbm : w.bm x = some (conf c) := by
-      rw [shrink_items] at hx
-      rw [shrink_add] at ha
-      by_cases hm : matched w.g.w.store x = true
-      · simp only [hm, if_true] at hx
-        exact hi.bm2 x c hx hn
-      · simp only [hm, Bool.false_eq_true, if_false] at hx ha
-        exact hi.bm1 x c ha hx hn
-    split <;> exact hbm
-
-theorem hosts_after_write {o : Opt} {sh : Sh p} {w : FW p} (hi : FInv o sh w) :
-    HInv (hCommit (hWrite w.h.shrink)) ∧
-    (∀ x, (hWrite w.h.shrink).maps x = (hCommit (hWrite w.h.shrink)).want x) ∧
-    (hWrite w.h.shrink).mapsNil = false := by
-  have := hupdate_good hi.h true (Or.inl rfl)
-  rw [updateWith_eq] at this
-  exact ⟨this.2.2, this.1, this.2.1⟩
-
-theorem tcp_after_lists {o : Opt} {sh : Sh p} {w : FW p} (hi : FInv o sh w) :
-    (w4Of o sh w).tcp.want ≠ 0 →
-      (w4Of o sh w).tcp.map = (w4Of o sh w).tcp.want ∧ (w4Of o sh w).tcp.crt = (w4Of o sh w).tcp.want := by
-  rw [w4Of_tcp_want, w4Of_tcp_map, w4Of_tcp_crt]
-  intro hw
-  have hw' : (w.tcp.want != 0) = true := by simpa using hw
-  refine ⟨?_, by simp [hw']⟩
-  by_cases hc : w.tcp.changed = true
-  · simp [hc]
-  · have hc' : w.tcp.changed = false := by simpa using hc
-    simp only [hc, Bool.false_eq_true, if_false]
-    cases hcm : w.g.committed with
-    | true => exact ((hi.t1 hc' hcm).1 hw).1
-    | false => exact absurd (hi.t2 hcm hc') hw
-
-theorem setEpv_eq {d a : Content} (hc : conf a = conf d) : setEpv d (epv a) = { cfg := a.cfg, slots := d.slots } := by
-  unfold setEpv epv
-  unfold conf at hc
-  have : 4 * (d.cfg / 4) + a.cfg % 4 % 4 = a.cfg := by omega
-  rw [this]
-
-theorem cfg_eq_of_conf_epv {d a : Content} (hc : conf a = conf d) (he : epv a = epv d) : a.cfg = d.cfg := by
-  unfold conf at hc; unfold epv at he; omega
-
-theorem dynStage_false {sh : Sh p} {bad : Nat → Bool} {w0 : FW p} {s0 : Store p} {hs0 hs1 : HStore p} {w4 : FW p}
-    (h : w0.g.committed = false) :
-    dynStage sh bad w0 s0 hs0 hs1 w4 =
-      { w := w4, s := s0, hs := hs1, sends := 0, updated := false, bchg := backChanged s0 } := by
-  simp [dynStage, h]
-
-theorem dynStage_true {sh : Sh p} {bad : Nat → Bool} {w0 : FW p} {s0 : Store p} {hs0 hs1 : HStore p} {w4 : FW p}
-    (h : w0.g.committed = true) :
-    dynStage sh bad w0 s0 hs0 hs1 w4 =
-      { w := { w4 with run := { w4.run with back := dynRun s0 bad w4.run.back } }, s := dynStore sh s0, hs := hs1
-        sends := totalSends s0
-        updated := !w0.tcp.changed && !hs0.isChanged && backendUpdated s0 bad w4.run.back w0.pcD
-        bchg := backChanged s0 } := by
-  simp [dynStage, h]
-
-theorem upd_good {o : Opt} {sh : Sh p} (wf : sh.WF) {w : FW p} (hi : FInv o sh w) {f : Fault} (hf : f.good = true) :
-    (upd o sh f w).err = false ∧ FInv o sh (upd o sh f w).w ∧ DiskGood o sh (upd o sh f w).w := by
-  unfold upd
-  rw [pre_good o sh w hf]
-  simp only []
-  have hI0 : Inv sh { store := shrink sh w.g.w.store, disk := w.g.w.disk } := shrink_inv hi.b
-  obtain ⟨hH, hmaps, hnil⟩ := hosts_after_write hi
-  cases hcm : w.g.committed with
-  | false =>
-    have hcf : (shrinkFlags w).g.committed = false := hcm
-    rw [dynStage_false hcf]
-    apply post_good wf hf
-    all_goals dsimp only
-    · rw [w4Of_g]; exact hI0
-    · intro x
-      unfold badX
-      cases hx : (shrink sh w.g.w.store).items x with
-      | none => rfl
-      | some c =>
-        have := (flags_after_maps hi x (by simp [hx])).2
-        simp [this]
-    · rw [w4Of_h]
-    · exact hH
-    · exact hmaps
-    · exact hnil
-    · exact tcp_after_lists hi
-    · exact fun x c hx hn => bm_after_maps hi x c hx hn
-    · exact fun x hx => flags_after_maps hi x hx
-    · rw [w4Of_pending]; exact hi.q
-    · intro h; cases h
-    · intro h; cases h
-  | true =>
-    have hIdyn : Inv sh { store := dynStore sh (shrink sh w.g.w.store), disk := w.g.w.disk } := dynStore_inv hI0
-    have hct : (shrinkFlags w).g.committed = true := hcm
-    rw [dynStage_true hct]
-    apply post_good wf hf
-    all_goals dsimp only
-    · rw [w4Of_g]; exact hIdyn
-    · intro x
-      unfold badX
-      cases hx : (dynStore sh (shrink sh w.g.w.store)).items x with
-      | none => rfl
-      | some c =>
-        have hsome : ((shrink sh w.g.w.store).items x).isSome = true := by
-          rw [← dynStore_items_isSome hI0]; simp [hx]
-        have := (flags_after_maps hi x hsome).2
-        simp [this]
-    · rw [w4Of_h]
-    · exact hH
-    · exact hmaps
-    · exact hnil
-    · exact tcp_after_lists hi
-    · intro x c hx hn
-      obtain ⟨c0, hc0, hcc⟩ := dynStore_items_conf hI0 hx
-      rw [← hcc] at hn ⊢
-      exact bm_after_maps hi x c0 hc0 hn
-    · intro x hx
-      rw [dynStore_items_isSome hI0] at hx
-      exact flags_after_maps hi x hx
-    · rw [w4Of_pending]; exact hi.q
-    · -- the write is skipped: nothing is pending after Shrink, the files already hold the items
-      intro _ _ hb k x
-      rw [w4Of_g]
-      have hn := backChanged_false hb x
-      have hpn : pair? (shrink sh w.g.w.store) x = none := pair?_none_of_add_none hn.1
-      simp only [itemsIn, dynStore_items, hpn]
-      by_cases hk : sh.shardOf x = k
-      · simp only [hk, if_true]
-        have := hI0.b x hn.1 hn.2
-        rw [hk] at this
-        exact this.symm
-      · simp only [hk, if_false]; exact hI0.g k x hk
-    · -- no reload follows: every runtime command was answered, HAProxy holds what the files will hold
-      intro hu
-      simp only [Bool.and_eq_true, Bool.not_eq_true'] at hu
-      obtain ⟨⟨htc, hhc⟩, hbu⟩ := hu
-      have htg := hi.t1 htc hcm
-      -- hosts are clean: WriteFrontendMaps was skipped, the maps are the ones HAProxy read
-      have hrb : w.h.shrink.rootBackendChanged = false := by
-        unfold HStore.rootBackendChanged
-        rw [anyFin_false_iff]
-        intro x
-        have : (w.h.shrink.bc x != w.h.shrink.bcC x) = false := by
-          have := hi.hbc x
-          simp only [HStore.shrink]
-          simp [this]
-        simp [this]
-      have hskipH : hSkip w.h.shrink = true := by
-        unfold hSkip
-        have h1 : w.h.shrink.mapsNil = false := hi.hm hcm
-        simp [h1, hhc, hrb]
-      have hw : hWrite w.h.shrink = w.h.shrink := by unfold hWrite; simp [hskipH]
-      refine ⟨?_, ?_, ?_⟩
-      · rw [w4Of_tcp_main, w4Of_tcp_want]; exact htg.2
-      · rw [w4Of_mainHosts, hw]; exact hi.mh hcm
-      · rcases hi.r with hp | hrg
-        · left; rw [w4Of_pending]; exact hp
-        · right
-          obtain ⟨r1, r2, r3, r4, r5, r6⟩ := hrg
-          refine ⟨?_, ?_, ?_, ?_, ?_, ?_⟩
-          · -- running servers
-            intro x c hx
-            show dynRun (shrink sh w.g.w.store) f.bad (w4Of o sh w).run.back x = some c
-            rw [w4Of_run]
-            have hok : pairOK (shrink sh w.g.w.store) f.bad (w4Of o sh w).run.back (shrinkFlags w).pcD x = true := by
-              unfold backendUpdated at hbu
-              simp only [Bool.not_eq_true'] at hbu
-              have := (anyFin_false_iff _).1 hbu x
-              simpa using this
-            rw [dynStore_items] at hx
-            unfold dynRun
-            cases hp : pair? (shrink sh w.g.w.store) x with
-            | some da =>
-              obtain ⟨d, a⟩ := da
-              rw [hp] at hx
-              simp only [Option.some.injEq] at hx
-              obtain ⟨hd, ha, hle⟩ := pair?_eq_some.1 hp
-              have hrd : w.run.back x = some d := r1 x d (by simp only [load]; exact hI0.c x d hd)
-              unfold pairOK at hok
-              simp only [ha, hp, Bool.and_eq_true, beq_iff_eq, Bool.not_eq_true'] at hok
-              obtain ⟨⟨⟨hconf, _⟩, hbad⟩, _⟩ := hok
-              simp only []
-              by_cases he : epv a = epv d
-              · have hcfg := cfg_eq_of_conf_epv hconf he
-                simp only [he, ne_eq, not_true_eq_false, false_and, if_false, hrd]
-                rw [← hx, hcfg]
-              · have hns : nsend (shrink sh w.g.w.store) x = 1 + a.slots := by
-                  unfold nsend; simp [hp, he]
-                have hb0 : f.bad (base (shrink sh w.g.w.store) x) = false := by
-                  have := anyRange_false hbad 0 (by omega)
-                  simpa using this
-                simp only [ne_eq, he, not_false_eq_true, hb0, and_self, if_true, hrd, Option.map_some]
-                rw [setEpv_eq hconf, ← hx]
-            | none =>
-              rw [hp] at hx
-              have hx' : (shrink sh w.g.w.store).items x = some c := hx
-              simp only []
-              cases ha : (shrink sh w.g.w.store).add x with
-              | some a =>
-                unfold pairOK at hok
-                simp [ha, hp] at hok
-              | none =>
-                cases hd : (shrink sh w.g.w.store).del x with
-                | some d =>
-                  have h2 : (shrink sh w.g.w.store).items x = none := hI0.b2 x ha (by simp [hd])
-                  rw [hx'] at h2; cases h2
-                | none =>
-                  have h2 : (shrink sh w.g.w.store).items x = w.g.w.disk (sh.shardOf x) x := hI0.b x ha hd
-                  apply r1 x c
-                  simp only [load]
-                  rw [← h2]; exact hx'
-          · intro x
-            show (w4Of o sh w).run.maps x = if (w4Of o sh w).mainHosts = true then (w4Of o sh w).h.maps x else none
-            rw [w4Of_run, w4Of_mainHosts, w4Of_h, hw]
-            exact r2 x
-          · intro x
-            show (w4Of o sh w).run.bm x = (w4Of o sh w).bm x
-            rw [w4Of_run, r3 x, w4Of_bm]
-            simp only [load]
-            split
-            · cases ha : (shrink sh w.g.w.store).add x with
-              | none => rfl
-              | some a =>
-                simp only []
-                by_cases hn : o.needACL (conf a) = true
-                · simp only [hn, if_true]
-                  -- the pair is updated: same `conf`, and the deleted object had its map written
-                  have hok : pairOK (shrink sh w.g.w.store) f.bad (w4Of o sh w).run.back (shrinkFlags w).pcD x = true := by
-                    unfold backendUpdated at hbu
-                    simp only [Bool.not_eq_true'] at hbu
-                    have := (anyFin_false_iff _).1 hbu x
-                    simpa using this
-                  unfold pairOK at hok
-                  simp only [ha] at hok
-                  cases hp : pair? (shrink sh w.g.w.store) x with
-                  | none => simp [hp] at hok
-                  | some da =>
-                    obtain ⟨d, a'⟩ := da
-                    obtain ⟨hd, ha', _⟩ := pair?_eq_some.1 hp
-                    rw [ha] at ha'; cases ha'
-                    simp only [hp, Bool.and_eq_true, beq_iff_eq] at hok
-                    have hconf := hok.1.1.1
-                    rw [shrink_del] at hd
-                    by_cases hm : matched w.g.w.store x = true
-                    · simp [hm] at hd
-                    · simp only [hm, Bool.false_eq_true, if_false] at hd
-                      rw [hconf] at hn ⊢
-                      exact hi.bm2 x d hd hn
-                · simp [hn]
-            · rfl
-          · show (w4Of o sh w).run.tcpMap = (w4Of o sh w).tcp.map
-            have htc' : w.tcp.changed = false := htc
-            rw [w4Of_run, w4Of_tcp_map, r4]
-            simp [htc']
-          · show (w4Of o sh w).run.tcpCrt = (w4Of o sh w).tcp.crt
-            rw [w4Of_run, w4Of_tcp_crt, r5]
-            split
-            · rename_i hw0
-              have : w.tcp.want ≠ 0 := by simpa using hw0
-              exact (htg.1 this).2
-            · rfl
-          · show (w4Of o sh w).run.tcpMain = (w4Of o sh w).tcp.main
-            rw [w4Of_run, w4Of_tcp_main, r6]
-
-/-! ### the reload queue worker -/
-
-theorem qrun_inv {o : Opt} {sh : Sh p} {w : FW p} (hi : FInv o sh w) (f : Fault) : FInv o sh (qrun sh f w).w := by
-  obtain ⟨hb, hh, hhm, hbc, hmh, ht1, ht2, hbm1, hbm2, hpc1, hpc2, hq, hr⟩ := hi
-  unfold qrun
-  cases hp : w.pending with
-  | false => simp only [Bool.not_false, if_true]; exact ⟨hb, hh, hhm, hbc, hmh, ht1, ht2, hbm1, hbm2, hpc1, hpc2, hq, hr⟩
-  | true =>
-    have hqt : o.queue = true := by
-      cases hqq : o.queue with
-      | true => rfl
-      | false => have := hq hqq; rw [hp] at this; cases this
-    simp only [Bool.not_true, Bool.false_eq_true, if_false, reload]
-    cases hf : f.isReload with
-    | true =>
-      simp only [if_true]
-      have hq' : o.queue = false → true = false := fun h => by rw [h] at hqt; cases hqt
-      exact ⟨hb, hh, hhm, hbc, hmh, ht1, ht2, hbm1, hbm2, hpc1, hpc2, hq', Or.inl rfl⟩
-    | false =>
-      simp only [Bool.false_eq_true, if_false]
-      exact ⟨hb, hh, hhm, hbc, hmh, ht1, ht2, hbm1, hbm2, hpc1, hpc2, fun _ => rfl, Or.inr (runGood_load rfl)⟩
-
-theorem qrun_diskGood {o : Opt} {sh : Sh p} {w : FW p} (hd : DiskGood o sh w) (f : Fault) :
-    DiskGood o sh (qrun sh f w).w := by
-  unfold qrun
-  cases w.pending with
-  | false => exact hd
-  | true =>
-    simp only [Bool.not_true, Bool.false_eq_true, if_false, reload]
-    cases f.isReload <;> exact hd
-
-/-- a fault-free run of the worker empties the queue and leaves HAProxy with the files -/
-theorem qrun_settles {o : Opt} {sh : Sh p} {w : FW p} (hi : FInv o sh w) {f : Fault} (hf : f.isReload = false) :
-    (qrun sh f w).err = false ∧ (qrun sh f w).w.pending = false ∧ RunGood sh (qrun sh f w).w := by
-  unfold qrun
-  cases hp : w.pending with
-  | false =>
-    simp only [Bool.not_false, if_true]
-    refine ⟨by first | rfl | trivial, hp, ?_⟩
-    rcases hi.r with h | h
-    · rw [hp] at h; cases h
-    · exact h
-  | true =>
-    simp only [Bool.not_true, Bool.false_eq_true, if_false, reload, hf]
-    exact ⟨by first | rfl | trivial, by first | rfl | trivial, runGood_load rfl⟩
+/-- stages 1 to 4 are not stopped by a fault that is not a write fault of theirs -/
+theorem pre_isOk_of_late {o : Opt} {sh : Sh p} {w : FW p} {f : Fault}
+    (h1 : (f == .tcpMaps) = false) (h2 : (f == .frontMaps) = false) (h3 : (f == .backMaps) = false)
+    (h4 : (f == .crtLists) = false) : ∃ m, pre o sh f w = .ok m := by
+  unfold pre pre2 pre3 pre4
+  simp only [h1, h2, h3, h4, Bool.and_false, Bool.false_eq_true, if_false]
+  exact ⟨_, rfl⟩
 
 end HapVerif.C12
